@@ -422,16 +422,41 @@ class Ctx:
     bad = grep_gate([path])
     if bad:
       return False, "forbidden vernacular in generated file: %s" % bad
+    try:
+      self.make_imports(text)
+    except CoqError as e:
+      return False, str(e)
     rc, out = coqc(os.path.relpath(path, COQ), timeout=timeout)
     return rc == 0, out
 
   # ---- evaluation of the model inside Coq ---------------------------------
+  def make_imports(self, header):
+    """(Re)build every hand-written library a generated file imports, so that a case file never
+    meets a .vo compiled against an older version of a shared library ("inconsistent
+    assumptions"): the per-check make targets cover the check's own theories, not necessarily every
+    library named in a case-file header."""
+    mods = []
+    for m in re.finditer(r"From\s+Precond\s+Require\s+(?:Import\s+|Export\s+)?(.*?)\.(?:\s|$)", header + "\n", re.S):
+      mods += m.group(1).split()
+    targets = sorted({"theories/%s.vo" % x.replace(".", "/") for x in mods
+                      if os.path.exists(os.path.join(THEORIES, x.replace(".", "/") + ".v"))})
+    key = tuple(targets)
+    done = getattr(self, "_made_imports", set())
+    if not targets or key in done:
+      return
+    ok, out = coq_make(targets)
+    if not ok:
+      raise CoqError("make of imported libraries failed:\n" + out[-3000:])
+    done.add(key)
+    self._made_imports = done
+
   def coq_eval(self, tag, header, terms, per_shard=250, timeout=900, salvage=False, term_timeout=300):
     """Evaluate each Coq term with vm_compute; returns list of result strings
     (same order).  header: vernacular placed at the top of every shard
     (Require Imports, Open Scope...).  Shards are compiled in parallel."""
     if not terms:
       return []
+    self.make_imports(header)
     shards = [terms[i:i + per_shard] for i in range(0, len(terms), per_shard)]
     paths = []
     for k, sh in enumerate(shards):
